@@ -38,6 +38,14 @@ pub struct RenderConfig { pub image_size: VoxelSize, pub world_to_model: Matrix4
 impl RenderConfig {
     pub fn width(&self) -> (r: u32) ensures r == self.image_size.w { self.image_size.width() }
     pub fn height(&self) -> (r: u32) ensures r == self.image_size.h { self.image_size.height() }
+    /// world_to_model * screen_to_world (nalgebra: not under contract; the matrix is only handed on to the evaluators)
+    #[verifier::external_body]
+    pub fn mat(&self) -> (r: Matrix4<f32>) { unimplemented!() }
+}
+impl<'a> TileSizesRef<'a> {
+    /// TileSizesRef::last (proved in unit tiles)
+    #[verifier::external_body]
+    pub fn last(&self) -> (r: usize) requires self.0@.len() >= 1 ensures r == self.0@[self.0@.len() - 1] { unimplemented!() }
 }
 pub struct EvalConfig {
     pub tile_sizes: Option<TileSizes>,
